@@ -72,7 +72,8 @@ def run(tier, replay_path=None):
     schema_n = 0
     if not replay_path:
         import schemapipe
-        sf, sst = schemapipe.collect_schema("C15", tier, None, ["C15/"], os.path.join(wd, "schema"), rng, quick_cap=700)
+        # take() does not depend on the follow-up statements: the capped sample also serves the thorough tier (C13 / C14 walk the full space)
+        sf, sst = schemapipe.collect_schema("C15", "quick", None, ["C15/"], os.path.join(wd, "schema"), rng, quick_cap=700 if tier == "quick" else 6000)
         for k, rec in sf: V.fail(k, rec)
         schema_n = sst["evals"]
     cov = {"states": max(states, 1), "transitions": max(gen, 1), "traces_validated_against_impl": len(verdicts),
